@@ -49,6 +49,8 @@ class Context:
         self.inv_def = {}
         self.exp_atoms = {}     # key(x) -> name
         self.exp_def = {}       # name -> x
+        self.pexp = {}          # name of the full exponential atom p = exp(x) -> name of u = exp(x) - 1
+        self.pexp_of = {}       # u name -> p name
         self.sqrt_atoms = {}
         self.sqrt_def = {}
         self.log_atoms = {}
@@ -353,7 +355,7 @@ class Sym:
             for m2, c2 in o.t.items():
                 m = _mono_mul(m1, m2)
                 cc = c1 * c2
-                if m and (rules or inv_def) and _needs_reduce(m, rules, inv_def):
+                if m and (rules or inv_def or c.pexp) and _needs_reduce(m, rules, inv_def):
                     redo.append((m, cc))
                     continue
                 v = d.get(m, 0) + cc
@@ -380,7 +382,7 @@ class Sym:
             mi = _mono_pow(m, -1)
             r = Sym({mi: 1 / c})
             cx = _ctx()
-            if mi and (cx.rules or cx.inv_def) and _needs_reduce(mi, cx.rules, cx.inv_def):
+            if mi and (cx.rules or cx.inv_def or cx.pexp) and _needs_reduce(mi, cx.rules, cx.inv_def):
                 r = _reduce_mono(mi, cx.rules, cx.inv_def) * (1 / c)
             return r
         return _inverse_atom(self)
@@ -455,6 +457,19 @@ class Sym:
         if not self.t:
             return Sym.const(1)
         c = _ctx()
+        lead = min(self.t)
+        if self.t[lead] < 0:
+            # exp(-y) = 1 / exp(y): expressed with the full exponential atom p_y (p = 1 + u_y), exponent -1
+            y = -self
+            (y.exp())          # make sure u_y exists
+            uname = c.exp_atoms[y.key()]
+            pname = c.pexp_of.get(uname)
+            if pname is None:
+                pname = "pexp!" + uname[4:]
+                c.pexp_of[uname] = pname
+                c.pexp[pname] = uname
+                c.vars[pname] = dict(kind="pexp", positive=True, lo=None, hi=None, nonneg=False)
+            return Sym({((pname, -1),): Fraction(1)})
         k = self.key()
         name = c.exp_atoms.get(k)
         if name is None:
@@ -692,11 +707,66 @@ def _needs_reduce(m, rules, inv_def):
             return True
         if e < 0 and n in inv_def:
             return True
+    pexp = _ctx().pexp
+    if pexp:
+        for n, e in m:
+            if n in pexp:
+                if e > 0:
+                    return True
+                un = pexp[n]
+                for n2, e2 in m:
+                    if n2 == un and e2 != 0:
+                        return True
     return False
+
+
+def _reduce_pexp(m, pexp):
+    """Partial-fraction normal form in (u, p = 1+u): only pure powers u^i (any i) and p^-j (j>0) survive."""
+    d = dict(m)
+    for pn, un in pexp.items():
+        j = d.get(pn, 0)
+        if j == 0:
+            continue
+        i = d.get(un, 0)
+        rest = tuple(sorted((n, e) for n, e in d.items() if n not in (pn, un)))
+        U = Sym({((un, 1),): Fraction(1)})
+
+        def mono(ii, jj):
+            t = []
+            if ii:
+                t.append((un, ii))
+            if jj:
+                t.append((pn, jj))
+            return tuple(sorted(t))
+
+        def red(ii, jj):
+            if jj > 0:
+                r = Sym({mono(ii, 0): Fraction(1)}) if ii else Sym.const(1)
+                base = U + 1
+                for _ in range(jj):
+                    r = r * base
+                return r
+            if jj == 0 or ii == 0:
+                return Sym({mono(ii, jj): Fraction(1)})
+            if ii > 0:
+                return red(ii - 1, jj + 1) - red(ii - 1, jj)
+            return red(ii, jj + 1) - red(ii + 1, jj)
+
+        core = red(i, j)
+        if rest:
+            core = core * Sym({rest: Fraction(1)})
+        return core
+    return None
 
 
 def _reduce_mono(m, rules, inv_def):
     """Rewrite a monomial containing rule atoms with |exp|>=2 / negative inverse atoms."""
+    pexp = _ctx().pexp
+    if pexp and any(n in pexp for n, _ in m):
+        dm = dict(m)
+        for pn, un in pexp.items():
+            if pn in dm and (dm[pn] > 0 or dm.get(un, 0) != 0):
+                return _reduce_pexp(m, pexp)
     rest = []
     factors = []
     for n, e in m:
@@ -743,6 +813,16 @@ def _inverse_atom(d):
             prim[_mono_mul(m, ci)] = co
     else:
         prim = dict(d.t)
+    if c.pexp and any(n in c.pexp for mm in prim for n, _ in mm):
+        pr = Sym({})
+        for mm, co in prim.items():
+            pr = pr + (_reduce_mono(mm, c.rules, c.inv_def) if _needs_reduce(mm, c.rules, c.inv_def) else Sym({mm: Fraction(1)})) * co
+        if len(pr.t) == 1:
+            r = pr.inverse()
+            if content:
+                r = r * Sym({content: Fraction(1)}).inverse()
+            return r
+        prim = dict(pr.t)
     lead = min(prim)  # deterministic
     lc = prim[lead]
     prim = {m: co / lc for m, co in prim.items()}
@@ -793,6 +873,8 @@ def _var_value(n, env):
             v = math.expm1(c.exp_def[n].evalf(env))
         except OverflowError:
             v = math.inf
+    elif n in c.pexp:
+        v = 1.0 + _var_value(c.pexp[n], env)
     elif n in c.sqrt_def:
         v = math.sqrt(c.sqrt_def[n].evalf(env))
     elif n in c.log_def:
@@ -816,6 +898,8 @@ def _subs(s, mapping, memo):
                     base = Sym.of(mapping[n])
                 elif n in c.inv_def:
                     base = _subs(c.inv_def[n], mapping, memo).inverse()
+                elif n in c.pexp:
+                    base = _subs(c.exp_def[c.pexp[n]], mapping, memo).exp()
                 elif n in c.exp_def:
                     base = _subs(c.exp_def[n], mapping, memo).exp() - 1
                 elif n in c.sqrt_def:
